@@ -498,6 +498,8 @@ func ropeEq(a, b *Rope) Value {
 					return false
 				}
 				acc = sym.And(acc, sym.Eq(s.D, sym.IntConst(v)))
+			case s.H != nil:
+				return false
 			case s.B != nil:
 				if len(rest) == 0 {
 					return false
@@ -524,11 +526,21 @@ func ropeEq(a, b *Rope) Value {
 	for i := range a.Segs {
 		x, y := a.Segs[i], b.Segs[i]
 		switch {
+		case x.H != nil && y.H != nil:
+			e := ropeEq(ropeOf(flattenChunks(x.H.chunks)), ropeOf(flattenChunks(y.H.chunks)))
+			switch e := e.(type) {
+			case bool:
+				if !e {
+					return false
+				}
+			case *sym.Term:
+				acc = sym.And(acc, e)
+			}
 		case x.D != nil && y.D != nil:
 			acc = sym.And(acc, sym.Eq(x.D, y.D))
 		case x.B != nil && y.B != nil:
 			acc = sym.And(acc, sym.Eq(x.B, y.B))
-		case x.D == nil && x.B == nil && y.D == nil && y.B == nil:
+		case x.conc() && y.conc():
 			if x.S != y.S {
 				// structure differs only in concrete text; safe to say "not equal" when the
 				// neighbours of every dec are non-digits on both sides
